@@ -264,7 +264,7 @@ Lemma create_tail_spec n hdr0 rate : forall txs rest' tot mn,
   create_tail H n hdr0 rate txs = Some (rest', tot, mn) ->
   length rest' = length txs /\
   Forall (fun t => groupCount t = n /\ fee t = 0%Z) rest' /\
-  linked H rest' /\ last_next rest' = last_next txs.
+  linked H rest' /\ last_next rest' = [].
 Proof.
   induction txs as [|t rest IH]; intros rest' tot mn E.
   - cbn in E. injection E as <- <- <-. repeat split; constructor.
@@ -275,9 +275,8 @@ Proof.
     destruct (IH r' tot' mn' eq_refl) as (Len & Fa & Lk & Ln).
     split; [cbn; lia|]. split; [constructor; [split; reflexivity|exact Fa]|].
     destruct r' as [|t1 r1].
-    + destruct rest; [|discriminate]. split; [exact I|reflexivity].
-    + destruct rest as [|u rest1]; [discriminate|].
-      split; [split; [reflexivity|exact Lk]|].
+    + split; [exact I|reflexivity].
+    + split; [split; [reflexivity|exact Lk]|].
       cbn [last_next] in Ln |- *. exact Ln.
 Qed.
 
@@ -304,7 +303,7 @@ Proof. intros ->. cbn [chained]. auto. Qed.
 
 Lemma create_group_spec txs rate G :
   create_group H txs rate = inr G ->
-  chained H G /\ last_next G = last_next txs /\ length G = length txs /\
+  chained H G /\ last_next G = [] /\ length G = length txs /\
   others_fee_free G = true /\ (2 <= length G)%nat.
 Proof.
   unfold create_group. destruct txs as [|t0 [|t1 rest]]; try discriminate.
@@ -324,7 +323,7 @@ Proof.
     split; [destruct y; reflexivity|].
     destruct Hy as [<-|Hy]; [reflexivity|].
     rewrite Forall_forall in Fa. destruct (Fa y Hy) as [Gc _]. destruct y; exact Gc. }
-  assert (LnG : last_next G = last_next (t0 :: t1 :: rest)).
+  assert (LnG : last_next G = []).
   { unfold G. rewrite last_next_map_set_header. cbn [last_next] in Ln |- *. exact Ln. }
   assert (FfG : others_fee_free G = true).
   { unfold others_fee_free. apply forallb_forall. intros x Hx.
@@ -403,10 +402,9 @@ Proof.
   rewrite Th. exact HL.
 Qed.
 
-Lemma created_group_checks_partial :
+Lemma created_group_checks :
   forall txs rate G L e tot,
     create_group H txs rate = inr G ->
-    last_next_empty txs = true ->
     map unsig L = map unsig G ->
     (Z.of_nat (length G) <= max_group)%Z ->
     existsb (chain_bad e) L = false ->
@@ -415,7 +413,7 @@ Lemma created_group_checks_partial :
     ((head_fee L >? e_maxfee e)%Z && (e_maxfee e >? 0)%Z && is_fork (e_height e) (e_block e) = false) ->
     check_group H e L = EOk.
 Proof.
-  intros txs rate G L e tot Cr Ln E Hn Cb Pa Sf Le Th.
+  intros txs rate G L e tot Cr E Hn Cb Pa Sf Le Th.
   destruct (create_group_spec _ _ _ Cr) as (Ch & LnG & LenG & Ff & Len2).
   pose proof (map_unsig_length _ _ E) as LenL.
   pose proof (chained_unsig H _ _ E Ch) as ChL.
@@ -427,13 +425,13 @@ Proof.
     apply hash_loop_ok; try assumption.
     + intros _. symmetry. exact Hd.
     + rewrite LenL. exact Hn.
-    + rewrite (last_next_unsig _ _ E), LnG. unfold last_next_empty in Ln.
-      destruct (last_next txs); [reflexivity|discriminate].
+    + rewrite (last_next_unsig _ _ E). exact LnG.
 Qed.
 
 End Create.
 
-(** the condition on the last input cannot be dropped *)
+(** example inputs; [ex_t2_stale]: the second input still carries the Next it
+    had as a non-last member of an earlier group (the former finding 1) *)
 Definition ex_t1 : tx :=
   mk_tx [99; 111; 105; 110; 115]%N [1; 2; 3]%N None 100000 0 7 [49; 74]%N 0 [] [] 0.
 Definition ex_t2 : tx :=
@@ -442,28 +440,18 @@ Definition ex_t2_stale : tx := set_next [9%N] ex_t2.
 Definition ex_env : env := mk_env 0 10 100 0 0 0 0.
 Definition idH (x : list N) : list N := x.
 
-Definition ex_G_stale : list tx :=
-  Eval vm_compute in
-    match create_group idH [ex_t1; ex_t2_stale] 0 with inr G => G | inl _ => [] end.
-
-Lemma created_group_checks_refuted : ~ C17_created_group_checks_full.
-Proof.
-  intro F.
-  assert (Cr : create_group idH [ex_t1; ex_t2_stale] 0 = inr ex_G_stale) by (vm_compute; reflexivity).
-  specialize (F idH [ex_t1; ex_t2_stale] 0%Z ex_G_stale ex_G_stale ex_env 0%Z Cr eq_refl).
-  assert (E : check_group idH ex_env ex_G_stale = EOk).
-  { apply F;
-      [ apply Z.leb_le; vm_compute; reflexivity | vm_compute; reflexivity
-      | intros _; vm_compute; reflexivity | vm_compute; reflexivity
-      | apply Z.leb_le; vm_compute; reflexivity | vm_compute; reflexivity ]. }
-  vm_compute in E. discriminate.
-Qed.
-
-(** the guard is satisfiable, and the theorem then says something *)
+(** the theorem says something: a group is created and passes; the stale Next
+    of the last input is dropped, the group is the one built from the clean input *)
 Example ex_created_checks :
   exists G, create_group idH [ex_t1; ex_t2] 0 = inr G /\ check_group idH ex_env G = EOk /\
-            last_next_empty [ex_t1; ex_t2] = true.
+            create_group idH [ex_t1; ex_t2_stale] 0 = inr G.
 Proof. eexists. split; [vm_compute; reflexivity|]. split; vm_compute; reflexivity. Qed.
+
+(** RebuiltGroup drops a stale Next of the last member as well *)
+Example ex_rebuilt_stale :
+  exists G, create_group idH [ex_t1; ex_t2] 0 = inr G /\
+            rebuilt_group idH (map (set_next [9%N]) G) = Some G.
+Proof. eexists. split; [vm_compute; reflexivity|]. vm_compute. reflexivity. Qed.
 
 (** * Tamper evidence *)
 Section Tamper.
@@ -688,25 +676,28 @@ Variable H : list N -> list N.
 
 Lemma relink_spec : forall L,
   length (relink H L) = length L /\ linked H (relink H L) /\
-  map groupCount (relink H L) = map groupCount L.
+  map groupCount (relink H L) = map groupCount L /\ last_next (relink H L) = [].
 Proof.
   induction L as [|t L IH]; [repeat split|].
-  destruct IH as (Len & Lk & Gc). cbn [relink].
+  destruct IH as (Len & Lk & Gc & Ln). cbn [relink].
   destruct (relink H L) as [|t1 r1] eqn:R.
   - destruct L; [|discriminate]. repeat split.
-  - cbn [length map] in *. split; [lia|]. split.
+  - cbn [length map] in *. split; [lia|]. split; [|split].
     + split; [destruct t; reflexivity|exact Lk].
     + rewrite <- Gc. destruct t; reflexivity.
+    + cbn [last_next] in Ln |- *. exact Ln.
 Qed.
 
 Theorem rebuilt_group_chained L M :
   rebuilt_group H L = Some M ->
   Forall (fun t => groupCount t = Z.of_nat (length L)) L ->
-  chained H M.
+  chained H M /\ last_next M = [].
 Proof.
-  unfold rebuilt_group. destruct (relink_spec L) as (Len & Lk & Gc).
+  unfold rebuilt_group. destruct (relink_spec L) as (Len & Lk & Gc & Ln).
   destruct (relink H L) as [|t0 r] eqn:R; [discriminate|]. intro E. injection E as <-.
-  intro Fa.
+  intro Fa. split;
+    [|change (last_next (map (set_header (thash H t0)) (t0 :: r)) = []);
+      rewrite last_next_map_set_header; exact Ln].
   apply chained_intro with (t0 := set_header (thash H t0) t0) (rest := map (set_header (thash H t0)) r).
   - reflexivity.
   - rewrite thash_set_header. destruct t0; reflexivity.
